@@ -707,8 +707,10 @@ func EvalFunction(env *Zlisp, name string, args []Sexp) (Sexp, error) {
 	startingDataStackSize := env.datastack.Size()
 
 	gen := NewGenerator(env)
+	macrosBefore := env.macrosSnapshot()
 	err := gen.GenerateBegin(args)
 	if err != nil {
+		env.macrosRestore(macrosBefore)
 		return SexpNull, err
 	}
 	if len(gen.instructions) == 0 {
